@@ -2,17 +2,34 @@
 
 What `-tol` means (PHREEQC manual, KINETICS; kinetics.cpp rk_kinetics / run_reactions)
 --------------------------------------------------------------------------------------
-`-tol` is an ABSOLUTE tolerance in MOLES of reaction, per kinetic reactant.
+`-tol` is an ABSOLUTE tolerance in MOLES of reaction, per kinetic reactant ("Tolerance for integration procedure
+(moles)", manual p. 107).
   * Runge-Kutta (rk_kinetics): for every internal integration interval h the difference between the 5th- and
     the embedded 4th-order estimate of the integrated rate (moles reacted in h) is divided by tol; the interval is
     accepted only if that ratio is <= 1, otherwise h is reduced.  (`/* tol is in moles/l */ l_error /= tol`.)
     With -runge_kutta 1/2/3 the scheme may leave early when the rates (moles per interval) of the evaluated stages
     agree within tol ("equal_rate"), i.e. again an absolute amount of moles per interval.
-  * CVODE (run_reactions): reltol = 0, abstol[j] = tol of reactant j; y = moles reacted.
-So the user tolerance is a bound on the local error, in moles, of one internal interval.  The property speaks of
-"100x the user tolerance": the oracle bound is therefore  |m - m_exact| <= 100 * tol  [moles], absolute, with no
-scaling by m0, by the number of steps or by time.  To this 1e-11 * scale (scale = largest amount in the problem) is
-added for the speciation solver's own convergence tolerance (DESIGN 4 rule 2; inputs set 1e-12) and floating point.
+  * CVODE (run_reactions): reltol = 0, abstol[j] = tol of reactant j; y = moles reacted; BDF of maximum order
+    -cvode_order, at most -cvode_steps internal steps per CVode call, at most -bad_step_max calls.
+So the user tolerance bounds the LOCAL error, in moles, of one internal interval.  The property speaks of
+"100x the user tolerance": the oracle bound is  |m - m_exact| <= 100 * tol  [moles], absolute, with no scaling by m0,
+by the number of steps or by time.  To this 1e-11 * scale (scale = largest reactant amount in the problem) is added
+for the speciation solver's own convergence tolerance (DESIGN 4 rule 2; inputs set 1e-12) and floating point, and -
+only where the rate law reads a dissolved amount (family approach_c, library rates) - the solute-balance residual
+that the very same run reports (the closed form presupposes an exactly closed balance; closure is C02's clause and
+is asserted separately here with C02's tolerance).
+
+Probe on the unchanged tree (grids of 6 000 + 3 400 + 1 600 runs, first order / approach / chain, tol 1e-6..1e-12,
+k*T 1e-3..20, m0 1e-3..1): global error / tol
+  Runge-Kutta 1/2/3/6, any -step_divide, <= 20 steps       <= 0.03 (M-only laws), closure-limited for approach_c
+  CVODE order 5, no restart, n chained integrations          n=1: <= 17, n=4: <= 35, n=8: <= 50, n=20: <= 106
+  CVODE order 4 / 3 / 2 / 1 (single integration)             <= 69 / 390 / 3 000 / 33 000  (error ~ tol^(q/(q+1)))
+  CVODE with -cvode_steps <= 50 (restart path)               up to 1.5e10 (0.2 * m0), silently
+=> two known findings (see replays/C12/known): K1 the CVODE restart path resumes from a rejected trial solution;
+K2 with CVODE the global error is not bounded by 100*tol for -cvode_order <= 4 or for many chained integrations.
+Both trigger classes are excluded BY CONSTRUCTION from the accuracy clauses (exact solution, path independence) and
+counted (`excluded_known:*`); ways in those classes are still run and checked for every clause that does not
+involve the tolerance (non-negative amounts, solute balance, KIN_DELTA, time bookkeeping).
 
 Step-list semantics (cxxKinetics::Current_step, manual): with INCREMENTAL_REACTIONS false every entry of an explicit
 `-steps` list is a cumulative time from zero (each step restarts from the initial state); with true the entries are
@@ -28,31 +45,41 @@ ID = "C12"
 LEVEL = "exploration"
 RULE = ("Hypothesis-generated KINETICS/RATES problems. Closed-form families: zero order (incl. exhaustion inside the interval), "
         "first order in M, linear approach of M to a fixed amount (from above and below), linear approach of a dissolved amount to a "
-        "fixed value, two-member decay chain (Bateman); k*T in [1e-3,20], -tol 1e-6..1e-12, formulas of 1-2 neutral salts with "
-        "coefficients. Each case reaches the same time T in 2-3 ways drawn from {single step, n equal steps, explicit list <= 20 steps} x "
-        "{INCREMENTAL_REACTIONS true,false} x {-runge_kutta 1/2/3/6 with -step_divide/-bad_step_max, -cvode with -cvode_order/-cvode_steps/"
-        "-bad_step_max} x {batch, ADVECTION 1 cell, TRANSPORT 1 cell with flux or constant boundaries (sub-mixes)}, each way in a fresh "
-        "instance. Library leg: phreeqc.dat RATES Calcite, Pyrite, Organic_C, K-feldspar, Albite, Quartz in their documented set-ups, "
-        "same relations without the closed form. Non-trivial = the reaction moved > 1e-3 of m0, the bound 100*tol is < 10 % of the amount "
-        "moved, >= 2 ways completed and the case is not a pure exhaustion; distinct by SHA-256 of the case")
+        "fixed value, two-member decay chain (Bateman); k*T in [1e-3,20], -tol 1e-6..1e-12 (not above 5e-4 of the amount that reacts), "
+        "formulas of 1-2 neutral salts with coefficients. Each case reaches the same time T in 2-3 ways drawn from {single step, n equal "
+        "steps, explicit list <= 20 steps} x {INCREMENTAL_REACTIONS true,false} x {-runge_kutta 1/2/3/6 with -step_divide/-bad_step_max, "
+        "-cvode with -cvode_order 1-5 / -cvode_steps 20-20000 / -bad_step_max} x {batch, ADVECTION 1 cell, TRANSPORT 1 cell with flux or "
+        "constant boundaries (sub-mixes)}, each way in a fresh instance; the first two ways are always accuracy-bearing (Runge-Kutta, or "
+        "CVODE order 5 without restart and <= 4 chained integrations), the third may lie in a known-finding class (CVODE order <= 4, "
+        "-cvode_steps <= 100, > 4 chained integrations) where only the tolerance-free clauses are asserted. Library leg: phreeqc.dat RATES "
+        "Calcite, Pyrite, Organic_C, K-feldspar, Albite, Quartz in their documented set-ups, same relations without the closed form. "
+        "Non-trivial = the reaction moved > 1e-3 of m0, the bound 100*tol is < 10 % of the amount moved, >= 2 accuracy-bearing ways "
+        "completed and the case is not a pure exhaustion; distinct by SHA-256 of the case")
 ASSUMPTIONS = ["-tol is an absolute tolerance in moles of reaction per internal integration interval (manual; kinetics.cpp), so '100x the user "
                "tolerance' is 100*tol moles, absolute",
                "closed forms evaluated in IEEE double with math.exp/expm1 are exact to 1e-15 relative",
                "non-incremental -steps entries are cumulative times from zero, incremental entries are increments (manual)",
                "the speciation solver's convergence tolerance (1e-12, set in every input) and rounding add at most 1e-11 of the largest amount",
+               "rate laws that read a dissolved amount inherit the run's own solute-balance residual (asserted separately with C02's "
+               "tolerance): 4x the largest residual reported by the run is added to the bound for those laws only",
+               "known findings K1 (CVODE restart) and K2 (CVODE global error for order <= 4 / many chained integrations) are excluded by "
+               "construction from the accuracy clauses and re-reported from replays/C12/known",
                "library-rate set-ups stay in the smooth regime of their rate laws (no exhaustion of the electron acceptor / reactant)"]
 TECHNIQUE = "property-based testing (Hypothesis): closed-form reference model + multi-path differential (partition / incremental / integrator / host)"
-LEVEL_TEXT = ("Exploration: thousands of generated rate problems per run are integrated 2-3 different ways each and compared with the "
-              "exact solution, with each other, with the solute balance and with the time bookkeeping; no exhaustive claim.")
+LEVEL_TEXT = ("Exploration: about a thousand (quick) / ten thousand (thorough) generated rate problems per run are integrated 2-3 different "
+              "ways each and compared with the exact solution, with each other, with the solute balance and with the time bookkeeping; no "
+              "exhaustive claim. CVODE configurations inside the two known findings are only checked for the tolerance-free clauses.")
 FLOORS = {"quick": 300, "thorough": 3000}
-SHARDS = {"quick": 8, "thorough": 16}
-BUDGET = {"quick": (150, 14), "thorough": (1500, 120), "replay": (1, 1)}   # (closed-form, library) cases per shard
+SHARDS = {"quick": 4, "thorough": 4}
+BUDGET = {"quick": (400, 40), "thorough": (5000, 500), "replay": (1, 1)}   # (closed-form, library) cases per shard
 
 SALTS = {"NaCl": {"Na": 1, "Cl": 1}, "KBr": {"K": 1, "Br": 1}, "LiCl": {"Li": 1, "Cl": 1}, "KNO3": {"K": 1, "N": 1},
          "NaBr": {"Na": 1, "Br": 1}, "LiBr": {"Li": 1, "Br": 1}, "KCl": {"K": 1, "Cl": 1}, "NaNO3": {"Na": 1, "N": 1}}
 ELS = ["Na", "K", "Li", "Cl", "Br", "N"]
 SOLNAME = {"N": "N(5)"}
 TOLS = [1e-6, 1e-7, 1e-8, 1e-9, 1e-10, 1e-11, 1e-12]
+ACC_MAX_CHAINED = 4          # CVODE (order 5, no restart): accuracy clauses asserted up to this many chained integrations
+NO_RESTART_STEPS = 1000      # -cvode_steps >= this never reaches the restart path in the generated domain (probe: <= 1000 steps needed)
 
 
 def prepare(tier):
@@ -60,41 +87,99 @@ def prepare(tier):
 
 
 # ------------------------------------------------------------------------------- generator
-def partition():
+def partition(max_n=20):
     return st.one_of(
         st.just({"type": "single"}),
-        st.integers(2, 20).map(lambda n: {"type": "equal", "n": n}),
-        st.lists(cg.uni(0.02, 0.98, 3), min_size=1, max_size=19, unique=True).map(
+        st.integers(2, max_n).map(lambda n: {"type": "equal", "n": n}),
+        st.lists(cg.uni(0.02, 0.98, 3), min_size=1, max_size=max_n - 1, unique=True).map(
             lambda fr: {"type": "list", "fr": sorted(fr) + [1.0]}),
     )
 
 
 @st.composite
-def integrator(draw, allow_cvode=True):
-    if allow_cvode and draw(st.integers(0, 2)) == 0:
-        return {"type": "cvode", "order": draw(st.sampled_from([1, 2, 3, 4, 5, 5])),
-                "steps": draw(st.sampled_from([20, 100, 100, 500])), "bad_step_max": draw(st.sampled_from([500, 2000]))}
+def rk_integ(draw):
     sd = draw(st.sampled_from([None, None, 2.0, 10.0, 100.0, 0.5, 0.05, 0.01]))
     return {"type": "rk", "rk": draw(st.sampled_from([1, 2, 3, 6])), "bad_step_max": draw(st.sampled_from([200, 500, 1000])),
             "step_divide": sd}
 
 
 @st.composite
-def way(draw, hosts, allow_cvode=True):
+def acc_way(draw, hosts):
+    """a way for which the accuracy clauses are asserted"""
     host = draw(st.sampled_from(hosts))
-    w = {"host": host, "integ": draw(integrator(allow_cvode))}
-    if host == "batch":
-        w["part"] = draw(partition())
-        w["incr"] = draw(st.booleans())
+    cv = draw(st.integers(0, 4)) >= 3
+    w = {"host": host}
+    if cv:
+        w["integ"] = {"type": "cvode", "order": 5, "steps": draw(st.sampled_from([5000, 20000])),
+                      "bad_step_max": draw(st.sampled_from([500, 2000]))}
     else:
-        w["part"] = {"type": "equal", "n": draw(st.integers(1, 12))}
+        w["integ"] = draw(rk_integ())
+    if host == "batch":
+        w["incr"] = draw(st.booleans())
+        w["part"] = draw(partition(ACC_MAX_CHAINED if (cv and w["incr"]) else 20))
+    else:
         w["incr"] = True
-        if host == "transport_const":
-            w["mixx"] = draw(cg.uni(0.1, 4.0, 3))           # 4*D*dt/L^2 -> 1..7 mixing sub-steps
+        const = host == "transport_const"
+        if const:
+            w["mixx"] = draw(cg.uni(0.1, 0.6 if cv else 4.0, 3))           # 4*D*dt/L^2 -> 1..7 mixing sub-steps
             w["flow"] = draw(st.sampled_from(["diffusion_only", "forward", "back"]))
+        # CVODE: keep the chained integrations (shifts x sub-mixes; probe: 1 per shift for pure diffusion with mixx <= 0.6,
+        # 3 per shift with flow) within ACC_MAX_CHAINED by construction
+        nmax = ((2 if w["flow"] == "diffusion_only" else 1) if const else ACC_MAX_CHAINED) if cv else 12
+        w["part"] = {"type": "equal", "n": draw(st.integers(1, nmax))}
+        if const:
+            pass
         elif host == "transport_flux":
             w["flow"] = draw(st.sampled_from(["forward", "back"]))
     return w
+
+
+@st.composite
+def kf_way(draw, hosts, tol):
+    """a CVODE way inside a known-finding trigger class (K1 restart, K2 low order / many chained integrations);
+    sizes are kept small because low orders need 1e3..1e5 internal steps at tight tolerances"""
+    sub = draw(st.sampled_from(["order", "order", "restart", "accum"]))
+    hs = [h for h in hosts if h in ("batch", "advection", "transport_flux")] or ["batch"]
+    host = draw(st.sampled_from(hs))
+    w = {"host": host, "incr": True}
+    small = True
+    if sub == "order":
+        order = draw(st.sampled_from([1, 2, 3, 4]))
+        if tol < 1e-7:
+            order = max(order, 2)
+        if tol < 1e-10:
+            order = max(order, 3)
+        w["integ"] = {"type": "cvode", "order": order, "steps": draw(st.sampled_from([100, 5000])), "bad_step_max": 2000}
+    elif sub == "restart":
+        steps = 20 if (tol >= 1e-9 and draw(st.booleans())) else 50
+        w["integ"] = {"type": "cvode", "order": draw(st.sampled_from([3, 4, 5, 5])), "steps": steps, "bad_step_max": 2000}
+    else:
+        w["integ"] = {"type": "cvode", "order": 5, "steps": 5000, "bad_step_max": 500}
+        small = False
+    if host == "batch":
+        if small:
+            w["incr"] = draw(st.booleans())
+            w["part"] = draw(partition(3))
+        else:
+            w["part"] = draw(st.one_of(st.integers(ACC_MAX_CHAINED + 1, 20).map(lambda n: {"type": "equal", "n": n}),
+                                       st.lists(cg.uni(0.02, 0.98, 3), min_size=ACC_MAX_CHAINED, max_size=19, unique=True).map(
+                                           lambda fr: {"type": "list", "fr": sorted(fr) + [1.0]})))
+    else:
+        w["part"] = {"type": "equal", "n": draw(st.integers(1, 3) if small else st.integers(ACC_MAX_CHAINED + 1, 12))}
+        if host == "transport_flux":
+            w["flow"] = draw(st.sampled_from(["forward", "back"]))
+    return w
+
+
+@st.composite
+def ways(draw, hosts, tol):
+    ws = [draw(acc_way(hosts)), draw(acc_way(hosts))]
+    k = draw(st.integers(0, 3))
+    if k == 1:
+        ws.append(draw(acc_way(hosts)))
+    elif k >= 2:
+        ws.append(draw(kf_way(hosts, tol)))
+    return ws
 
 
 @st.composite
@@ -117,8 +202,7 @@ def cf_case(draw):
     T = draw(cg.logu(1.0, 1e8, 4))
     kT = draw(cg.logu(1e-3, 20.0, 4))
     m0 = draw(cg.logu(1e-3, 1.0, 4))
-    tol = draw(st.sampled_from(TOLS))
-    case = {"kind": "cf", "family": fam, "T": T, "tol": tol, "m0": m0, "water": draw(st.sampled_from([1.0, 1.0, 0.5, 2.0])),
+    case = {"kind": "cf", "family": fam, "T": T, "tol": None, "m0": m0, "water": draw(st.sampled_from([1.0, 1.0, 0.5, 2.0])),
             "temp": draw(st.sampled_from([25.0, 25.0, 10.0, 60.0]))}
     f1 = draw(formula())
     case["formula"] = f1
@@ -152,6 +236,11 @@ def cf_case(draw):
         for e, c in formula_els(f2).items():
             need[e] = need.get(e, 0) + c * m0          # B can grow by at most A0
     case["p"] = p
+    # tolerance: any of the list that is small against the amount that reacts (else the bound 100*tol says nothing)
+    m_init = [m0, p["b0"]] if fam == "chain" else [m0]
+    moved = max(abs(a - b) for a, b in zip(exact(case, T), m_init))
+    ok = [t for t in TOLS if t <= 5e-4 * moved] or [TOLS[-1]]
+    case["tol"] = draw(st.sampled_from(ok))
     # solution: every tracked element present, enough of what precipitation takes up
     sol = {}
     for e in ELS:
@@ -161,8 +250,7 @@ def cf_case(draw):
     hosts = ["batch", "batch", "batch", "advection", "transport_flux", "transport_const"]
     if fam == "approach_c":
         hosts = ["batch"]                # the closed form needs a closed cell
-    nw = draw(st.integers(2, 3))
-    case["ways"] = [draw(way(hosts)) for _ in range(nw)]
+    case["ways"] = draw(ways(hosts, case["tol"]))
     return case
 
 
@@ -179,12 +267,12 @@ def lib_case(draw):
     elif name == "Pyrite":
         c["m0"] = draw(cg.logu(1e-4, 1e-2, 3)); c["parms"] = [draw(cg.uni(0.0, 1.0, 2)), 0.67, 0.5, -0.11]
         c["T"] = draw(cg.logu(3e3, 3e5, 3))
-        c["solution"] = " pH %s\n pe 12 O2(g) -0.68\n Na 10\n Cl 10 charge\n S(6) 1\n Fe(3) 1e-6" % cg.fmt(draw(cg.uni(3.0, 7.0, 3)))
+        c["solution"] = " pH %s\n pe 12\n O(0) 0.5\n Na 10\n Cl 10 charge\n S(6) 1\n Fe(3) 1e-6" % cg.fmt(draw(cg.uni(3.0, 7.0, 3)))
         c["units"] = "mmol/kgw"; c["formula"] = None; c["els"] = {"Fe": 1, "S": 2}
     elif name == "Organic_C":
         c["m0"] = draw(cg.logu(1e-3, 1e-2, 3)); c["parms"] = []
         c["T"] = draw(cg.logu(3e5, 3e7, 3))
-        c["solution"] = " pH 7\n pe 12 O2(g) -0.68\n Na 10\n Cl 10 charge\n N(5) %s\n S(6) %s" % (cg.fmt(draw(cg.logu(0.5, 5, 3))), cg.fmt(draw(cg.logu(0.5, 5, 3))))
+        c["solution"] = " pH 7\n pe 12\n O(0) 0.5\n Na 30\n Cl 10 charge\n N(5) %s\n S(6) %s" % (cg.fmt(draw(cg.logu(0.5, 5, 3))), cg.fmt(draw(cg.logu(0.5, 5, 3))))
         c["units"] = "mmol/kgw"; c["formula"] = "CH2O 1"; c["els"] = {"C": 1}
     elif name in ("K-feldspar", "Albite"):
         c["m0"] = draw(cg.logu(0.1, 3, 3)); c["parms"] = [draw(cg.logu(1, 20, 3)), draw(st.sampled_from([0.1, 1.0]))]
@@ -198,7 +286,7 @@ def lib_case(draw):
         c["solution"] = " pH 7\n Na 1\n Cl 1 charge"
         c["units"] = "mmol/kgw"; c["formula"] = None; c["els"] = {"Si": 1}
     c["temp"] = draw(st.sampled_from([25.0, 25.0, 12.0, 40.0]))
-    c["ways"] = [draw(way(["batch"])) for _ in range(draw(st.integers(2, 3)))]
+    c["ways"] = draw(ways(["batch"], c["tol"]))
     return c
 
 
@@ -212,7 +300,7 @@ def rates_text(case):
     elif fam == "approach_m":
         body = [("Ra", ["10 rate = PARM(1) * (M - PARM(2))", "20 moles = rate * TIME", "30 SAVE moles"])]
     elif fam == "approach_c":
-        el = SOLNAME.get(case["p"]["el"], case["p"]["el"])
+        el = case["p"]["el"]        # the element total (all valence states): the conserved quantity the closed form is written in
         body = [("Ra", ['10 n = TOT("%s") * TOT("water")' % el, "20 rate = PARM(1) * (PARM(2) - n)", "30 moles = rate * TIME", "40 SAVE moles"])]
     else:
         body = [("Ra", ["10 rate = PARM(1) * M", "20 moles = rate * TIME", "30 SAVE moles"]),
@@ -384,7 +472,8 @@ def run_way(case, w, nsat=None):
             e = I.errors()
             if "maximum calls" in e or "Bad RK steps" in e:
                 raise Discard("integrator_limit")
-            raise Discard("run_error")
+            first = (e.strip().split("\n") or [""])[0].replace("ERROR:", "").strip()
+            raise Discard("run_error:" + "".join(ch for ch in first[:48] if not ch.isdigit()))
         T = I.table()
     finally:
         I.close()
@@ -405,16 +494,57 @@ def close(a, b, rel, floor=0.0):
     return abs(a - b) <= rel * max(abs(a), abs(b)) + floor
 
 
+def integ_label(g):
+    return ("cvode%d" % g["order"]) if g["type"] == "cvode" else "rk%d" % g["rk"]
+
+
 def way_label(w):
     g = w["integ"]
-    return "%s/%s/%s/%s" % (w["host"], w["part"]["type"], "incr" if w["incr"] else "cum",
-                            ("cvode%d" % g["order"]) if g["type"] == "cvode" else "rk%d" % g["rk"])
+    lab = "%s/%s/%s/%s" % (w["host"], w["part"]["type"], "incr" if w["incr"] else "cum", integ_label(g))
+    if g["type"] == "cvode":
+        lab += "/steps%d" % g["steps"]
+    return lab
 
 
-def check_case(case, ctx):
+def static_class(w):
+    """accuracy class of a way as far as it follows from its construction:
+    'rk' | 'cvodeA' (default order, no restart; chained integrations still to be counted) | 'K2_order' | 'K1_restart'"""
+    g = w["integ"]
+    if g["type"] == "rk":
+        return "rk"
+    if g["order"] <= 4:
+        return "K2_order"
+    if g["steps"] < NO_RESTART_STEPS:
+        return "K1_restart"
+    return "cvodeA"
+
+
+def chained(w, reac, T):
+    """number of integrations chained one after the other up to the last row"""
+    ncum = len(cum_times(w["part"], T))
+    if w["host"] == "batch":
+        return ncum if w["incr"] else 1
+    dt = T / ncum
+    n = 0
+    for r in reac:            # inside transport every sub-mix is an integration of KIN_TIME seconds
+        kt = r["kt"]
+        n += max(1, int(round(dt / kt))) if kt and kt > 0 else 1
+    return n
+
+
+def bucket(x):
+    for b in (0.001, 0.01, 0.1, 0.3, 0.6, 1.0):
+        if x <= b:
+            return "<=%g" % b
+    return ">1"
+
+
+def check_case(case, ctx, probe=None):
+    """probe: development aid - a dict that receives the accuracy ratios instead of accuracy violations being raised"""
     T, tol, m0 = case["T"], case["tol"], case["m0"]
     cf = case["kind"] == "cf"
-    names = 2 if cf and case["family"] == "chain" else 1
+    fam = case["family"] if cf else case["rate"]
+    names = 2 if cf and fam == "chain" else 1
     m_init = [m0, case["p"]["b0"]] if names == 2 else [m0]
     if cf:
         fels = [formula_els(case["formula"])] + ([formula_els(case["formula2"])] if names == 2 else [])
@@ -422,25 +552,48 @@ def check_case(case, ctx):
     else:
         fels = [case["els"]]
         els = sorted(case["els"])
-    scale = max(m_init + [1e-3])
-    bound = 100.0 * tol + 1e-11 * max(scale, 1.0 if not cf else scale)
+    reads_solution = (not cf) or fam == "approach_c"
+    force_all = bool(case.get("assert_all"))       # only in the registered known-finding replays
+    scale = max(m_init + [1e-3] + ([abs(case["p"]["minf"])] if cf and fam == "approach_m" else []))
+    base_bound = 100.0 * tol + 1e-11 * scale
     finals = []
-    classes = ["family=%s" % (case["family"] if cf else case["rate"]), "tol=%g" % tol]
+    classes = ["family=%s" % fam, "tol=%g" % tol]
     nsat = None
     moved = 0.0
+    worst = 0.0
     for w in case["ways"]:
-        if cf and case["family"] == "approach_c" and nsat is None:
+        if cf and fam == "approach_c" and nsat is None:
             # saturation amount = initial dissolved amount (exact echo of the input: conc * water) + dn
             nsat = case["sol"][case["p"]["el"]] * case["water"] + case["p"]["dn"]
+        lab = way_label(w)
         try:
             reac, init = run_way(case, w, nsat)
         except Discard as d:
-            ctx.event("way_discarded:" + d.why)
+            ctx.event("way_discarded:%s" % d.why)
+            if probe is not None:
+                probe.setdefault("discards", []).append((d.why, lab))
             continue
         cum = cum_times(w["part"], T)
-        lab = way_label(w)
         if len(reac) != len(cum):
             raise Violation("rows", "%s: %d reaction rows for %d steps" % (lab, len(reac), len(cum)))
+        # ---- is this way inside a known-finding trigger class?  (by construction; chained integrations counted)
+        klass = static_class(w)
+        nch = chained(w, reac, T)
+        if klass == "cvodeA" and nch > ACC_MAX_CHAINED:
+            klass = "K2_chained"
+        acc = force_all or klass in ("rk", "cvodeA")
+        if not acc:
+            ctx.event("excluded_known:" + klass)
+        # ---- solute-balance residual reported by this run (only used for laws that read the solution)
+        closure = 0.0
+        if reads_solution and w["host"] == "batch":
+            for r in reac:
+                for e in els:
+                    ce = sum(fels[j].get(e, 0.0) for j in range(names))
+                    if ce > 0:
+                        res = (r["n_" + e] - init["n_" + e]) + sum((r["m%d" % j] - m_init[j]) * fels[j].get(e, 0.0) for j in range(names))
+                        closure = max(closure, abs(res) / ce)
+        bound = base_bound + 4.0 * closure
         prev = list(m_init)
         for i, (r, t) in enumerate(zip(reac, cum)):
             ms = [r["m%d" % j] for j in range(names)]
@@ -464,13 +617,17 @@ def check_case(case, ctx):
             if w["host"] == "advection" and not close(r["kt"], T / len(cum), 1e-11):
                 raise Violation("kin_time", "%s shift %d: KIN_TIME %r, time step %r" % (lab, i + 1, r["kt"], T / len(cum)))
             # ---- closed form
-            if cf:
+            if cf and acc:
                 ex = exact(case, t)
                 for j in range(names):
-                    if abs(ms[j] - ex[j]) > bound:
-                        raise Violation("exact", "%s step %d (t=%r): reactant %d amount %r, exact %r, |diff| %.3e > 100*tol = %.3e"
-                                        % (lab, i + 1, t, j, ms[j], ex[j], abs(ms[j] - ex[j]), bound))
-                if case["family"] == "zero" and case["p"]["k"] * t >= m0 * 1.02 + 200 * tol and ms[0] != 0.0:
+                    d = abs(ms[j] - ex[j])
+                    worst = max(worst, d / bound)
+                    if probe is not None:
+                        probe.setdefault("exact", []).append((d / tol, (d - 4.0 * closure) / tol, lab, nch))
+                    elif d > bound:
+                        raise Violation("exact", "%s step %d (t=%r): reactant %d amount %r, exact %r, |diff| %.3e > 100*tol (+floor) = %.3e"
+                                        % (lab, i + 1, t, j, ms[j], ex[j], d, bound))
+                if fam == "zero" and case["p"]["k"] * t >= m0 * 1.02 + 200 * tol and ms[0] != 0.0:
                     raise Violation("exhausted", "%s step %d: exhausted at t*=%r but amount at t=%r is %r, not 0"
                                     % (lab, i + 1, m0 / case["p"]["k"], t, ms[0]))
             # ---- KIN_DELTA: change over this step (incremental, transport, advection) or since the start (cumulative)
@@ -494,26 +651,39 @@ def check_case(case, ctx):
                         raise Violation("solute_balance", "%s step %d: %s in solution %r -> %r (change %.10e) but reactants released %.10e"
                                         % (lab, i + 1, e, before, after, after - before, gain))
             prev = ms
-        finals.append((lab, [reac[-1]["m%d" % j] for j in range(names)]))
-        moved = max(moved, max(abs(reac[-1]["m%d" % j] - m_init[j]) for j in range(names)))
+        fin = [reac[-1]["m%d" % j] for j in range(names)]
+        moved = max(moved, max(abs(fin[j] - m_init[j]) for j in range(names)))
+        if acc:
+            finals.append((lab, fin, bound))
         classes.append("host=" + w["host"])
-        classes.append("integ=" + (("cvode" if w["integ"]["type"] == "cvode" else "rk%d" % w["integ"]["rk"])))
+        classes.append("integ=" + (integ_label(w["integ"]) if klass in ("rk", "cvodeA") else "cvode:" + klass))
         classes.append("part=%s/%s" % (w["part"]["type"], "incr" if w["incr"] else "cum"))
+        if w["integ"]["type"] == "rk" and w["integ"]["step_divide"] is not None:
+            classes.append("step_divide" + (">1" if w["integ"]["step_divide"] > 1 else "<1"))
+        classes.append("chained=%s" % ("1" if nch == 1 else "2-4" if nch <= 4 else "5-20" if nch <= 20 else ">20"))
     if not finals:
-        raise Discard("all_ways_failed")
+        raise Discard("no_accuracy_bearing_way_completed")
     # ---- any two ways of reaching T agree within 100*tol
     for a in range(len(finals)):
         for b_ in range(a + 1, len(finals)):
+            bnd = max(finals[a][2], finals[b_][2])
             for j in range(names):
                 d = abs(finals[a][1][j] - finals[b_][1][j])
-                if d > bound:
-                    raise Violation("path_independence", "amount of reactant %d at T=%r: %r via %s, %r via %s; |diff| %.3e > 100*tol = %.3e"
-                                    % (j, T, finals[a][1][j], finals[a][0], finals[b_][1][j], finals[b_][0], d, bound))
-    pure_exhaustion = cf and case["family"] == "zero" and case["p"]["k"] * min(cum_times(w["part"], T)[0] for w in case["ways"]) >= m0
-    nt = len(finals) >= 2 and moved > 1e-3 * m0 and bound < 0.1 * moved and not pure_exhaustion
-    if cf and case["family"] == "zero" and case["p"]["k"] * T > m0:
+                worst = max(worst, d / bnd)
+                if probe is not None:
+                    probe.setdefault("path", []).append((d / tol, (d - (bnd - base_bound)) / tol, finals[a][0] + " vs " + finals[b_][0], 0))
+                elif d > bnd:
+                    raise Violation("path_independence", "amount of reactant %d at T=%r: %r via %s, %r via %s; |diff| %.3e > 100*tol (+floor) = %.3e"
+                                    % (j, T, finals[a][1][j], finals[a][0], finals[b_][1][j], finals[b_][0], d, bnd))
+    pure_exhaustion = cf and fam == "zero" and case["p"]["k"] * min(cum_times(w["part"], T)[0] for w in case["ways"]) >= m0
+    bmax = max(f[2] for f in finals)
+    nt = len(finals) >= 2 and moved > 1e-3 * m0 and bmax < 0.1 * moved and not pure_exhaustion
+    if cf and fam == "zero" and case["p"]["k"] * T > m0:
         classes.append("exhaustion_inside_interval")
-    classes.append("ways_completed=%d" % len(finals))
+    classes.append("accuracy_ways=%d" % len(finals))
+    classes.append("worst_diff/bound" + bucket(worst))
+    if bmax > 2 * base_bound:
+        classes.append("closure_dominates_bound")
     return {"nontrivial": nt, "classes": classes}
 
 
@@ -521,3 +691,35 @@ def run(ctx):
     ncf, nlib = BUDGET[ctx.tier]
     ctx.hyp(cf_case(), lambda c: check_case(c, ctx), ncf, "closed_form")
     ctx.hyp(lib_case(), lambda c: check_case(c, ctx), nlib, "library")
+
+
+def debug_margins(kind="cf", n=200, seed_=1):
+    """development helper: distribution of |diff|/tol per integrator class on the current tree (nothing is asserted for accuracy)"""
+    from hypothesis import given, settings, seed, HealthCheck
+    import collections
+
+    class C:
+        def event(self, *a):
+            pass
+    stat = collections.defaultdict(list)
+    disc = collections.Counter()
+
+    @settings(max_examples=n, database=None, deadline=None, suppress_health_check=list(HealthCheck))
+    @seed(seed_)
+    @given(cf_case() if kind == "cf" else lib_case())
+    def t(case):
+        pr = {}
+        try:
+            check_case(case, C(), pr)
+        except Discard as d:
+            disc[d.why] += 1
+            return
+        for k in ("exact", "path"):
+            for raw, net, lab, nch in pr.get(k, []):
+                key = "%s %s %s" % (k, case.get("family", case.get("rate")), lab.split("/")[-2] if "steps" in lab else lab.split("/")[-1]) if k == "exact" else "%s %s" % (k, case.get("family", case.get("rate")))
+                stat[key].append((net, raw, case["tol"], lab))
+    t()
+    for k in sorted(stat):
+        v = sorted(stat[k], reverse=True)
+        print("%-40s n=%5d  max net %.3g (raw %.3g, tol %g, %s)  p99 %.3g" % (k, len(v), v[0][0], v[0][1], v[0][2], v[0][3], v[len(v) // 100][0]))
+    print("discards", dict(disc))
